@@ -76,7 +76,14 @@ fn generate_engine(rng: &mut Rng) -> EngineSc {
     }
     let last = crate::checks::c07::gen_resp(rng, &mut uniq, false, 9);
     script.push(last);
-    EngineSc { commands, tool_posts: rng.below(3) as u8, plan: Plan { rules, random: Some((rng.next_u64(), 1, rng.range(2, 5), rng.range(1, 10))) }, workers: if rng.chance(1, 2) { 3 } else { 0 }, prompts, script, dump_requests: rng.chance(1, 2) }
+    let sc = EngineSc { commands, tool_posts: rng.below(3) as u8, plan: Plan { rules, random: Some((rng.next_u64(), 1, rng.range(2, 5), rng.range(1, 10))) }, workers: if rng.chance(1, 2) { 3 } else { 0 }, prompts, script, dump_requests: rng.chance(1, 2) };
+    // last draws (nothing above depends on them): 1 in 2 scripts carry a byte that is not UTF-8 in
+    // the middle of a response, and then at least one prompt is answered by the provider
+    let mut sc = sc;
+    if rng.chance(1, 2) && crate::esim::inject_invalid_byte(&mut sc.script, rng) {
+        sc.prompts = sc.prompts.max(1);
+    }
+    sc
 }
 
 fn execute_engine(e: &EngineSc, env: &Env) -> Executed {
